@@ -99,6 +99,7 @@ def run(chk, ctx):
     repo, model = ctx.repo, ctx.model
     summary = convert_summary(repo)
     g = Grammar(repo)
+    model.prefetch(model.concrete_classes(), split_all=True)
     for cname in model.concrete_classes():
         entries, _ = model.init_facts(cname)
         if any(e.enum_is("self._max_n", "None") == "no" for e in entries):
@@ -124,7 +125,7 @@ def run(chk, ctx):
                             nxt.append((s2, dict(cfg, **{s: v})))
                 cur = nxt
             split += cur
-        runs = model.runs(cname)
+        runs = model.runs(cname, split_all=True)
         for r in runs:
             register(chk, r)
         # ---- TOTAL
@@ -210,6 +211,9 @@ def run(chk, ctx):
             else:
                 online = all(e.enum_is("self._max_n", "None") == "yes" for e in entries)
                 for r in runs:
+                    # only the run analysed under this storage choice
+                    if any(r.config.get("self._" + p, v) != v for p, v in pcfg.items()):
+                        continue
                     for rec in r.interp.yields:
                         vals = []
                         if rec.kind == "Forward":
@@ -244,6 +248,16 @@ def run(chk, ctx):
                             continue
                     elif isinstance(key, tuple) and key[0] == "toks":
                         toks = set(key[1])
+                        if len(toks) > 1:
+                            # a local whose value set was merged over branches: which member is emitted in this
+                            # configuration is not known, so a failing query is not a definite under-report
+                            for t in sorted(toks):
+                                rel, c, f, res = evaluate(repo, cname, t, st)
+                                if res != {("value", "True")}:
+                                    chk.decide("C11.COVER", f"{base}#cover({t.split('.')[1]}){ctext}", None,
+                                               f"{t} may be emitted ({why}, value set {sorted(toks)}) and the query gives {sorted(res)}",
+                                               rel=rel, node=f)
+                            continue
                     else:
                         toks = {key}
                     for t in sorted(toks):
